@@ -379,8 +379,9 @@ Definition start (c0 : cfg) : res mstate :=
 Definition listed_parts (v : variant) (s : segrec) : list part :=
   match v with LL => sg_parts s | _ => [] end.
 
+(* since fix 69594d6 never below 1: a zero EXT-X-TARGETDURATION is read as "not set" by clients *)
 Definition targetDuration (segs : list segrec) : Z :=
-  fold_left (fun acc s => Z.max acc (roundSeconds (round10us (sg_dur s)))) segs 0.
+  Z.max 1 (fold_left (fun acc s => Z.max acc (roundSeconds (round10us (sg_dur s)))) segs 0).
 
 Definition partTargetDuration (v : variant) (segs : list segrec) (openparts : list part) : Z :=
   let m1 := fold_left (fun acc s =>
